@@ -406,12 +406,18 @@ def _max_offsets(b, var, out):
             _max_offsets(p[4], var, out)
 
 
-def _causal(b, var, elen, F):
+def _causal(b, var, elen, F, acc=ZERO):
     """every piece at output offset [o, o+len) only mentions var bytes below o+len (block granularity)."""
-    acc = ZERO
     for p in b:
         ln = T.plen(p)
-        if p[0] == "m":
+        if p[0] == "i":
+            # conditional piece: each branch under its own facts, at the same output offset
+            F1, F0 = T.split_facts(F, p[1])
+            if not (F1.inconsistent() or _causal(p[3], var, elen, F1, acc)):
+                return False
+            if not (F0.inconsistent() or _causal(p[4], var, elen, F0, acc)):
+                return False
+        elif p[0] == "m":
             v = Lin.sym(p[1])
             F2 = F.copy()
             F2.add_ge(v - p[2])
